@@ -180,5 +180,9 @@ class AsyncJunosDriver(AsyncNetworkDriver):
             N/A
 
         """
-        await self.send_configs(["rollback 0", "exit"])
+        # stay in the (possibly exclusive/private) configuration session that failed; the default
+        # privilege level of send_configs would leave it for "configuration" before rolling back
+        await self.send_configs(
+            ["rollback 0", "exit"], privilege_level=self._current_priv_level.name
+        )
         self._current_priv_level = self.privilege_levels["exec"]
